@@ -64,6 +64,7 @@ def run(ctx, rep):
     check_storage_disposition(fx, rep, f)
     check_revert_slot_writers(fx, rep)
     check_revert_slot_values(fx, rep)
+    check_revert_is_empty(fx, rep)
     check_revert_latest(fx, rep)
     check_plain_reverts(fx, rep)
     check_add_transitions(fx, rep)
@@ -74,6 +75,69 @@ def run(ctx, rep):
     sub = engine.SubReport(rep, 'C15')
     c15.check_cache_account(fx, sub)
     c15.check_apply(fx, sub)
+
+
+def check_revert_is_empty(fx, rep):
+    """R13: update_and_create_revert drops a revert that AccountRevert::is_empty calls empty, so the
+    predicate must be exactly: no info change, no slots, and no wipe flag (a revert whose only content
+    is the wipe flag - a storage-less contract destroyed - still has to undo the destruction of the
+    database's storage knowledge)."""
+    import itertools as it
+    f = fx.fns.get(R + 'is_empty')
+    if f is None:
+        rep.undecided('R13-revert-is-empty', 'is_empty', 'not found')
+        return
+    rep.fn(f)
+    try:
+        rs = Symx(fx, max_paths=200).run(f)
+    except Budget:
+        rep.undecided('R13-revert-is-empty', 'is_empty', 'path budget', f.where())
+        return
+
+    def atom(txt):
+        if txt.startswith(("eq(&('arg', 1).account", 'eq(&arg1.account')) and 'DoNothing' in txt:
+            return 'N'
+        if txt.startswith(("is_empty(&('arg', 1).storage", 'is_empty(&arg1.storage')):
+            return 'S'
+        if txt in ('arg1.wipe_storage', "('arg', 1).wipe_storage"):
+            return 'W'
+        return None
+
+    def value(sv, val):
+        if sv[0] == 'k':
+            return bool(int(sv[1]))
+        if sv[0] == 'un' and sv[1] == 'Not':
+            v = value(sv[2], val)
+            return None if v is None else not v
+        a = atom(render(sv))
+        return None if a is None else val[a]
+    bad = None
+    for N, S, W in it.product((False, True), repeat=3):
+        val = {'N': N, 'S': S, 'W': W}
+        got = set()
+        for r in rs:
+            ok = True
+            for (sv, lit, _f, _b) in r.lits:
+                v = value(sv, val)
+                tv = lit_truth(lit)
+                if v is None or tv is None:
+                    ok = None
+                    break
+                if v != tv:
+                    ok = False
+                    break
+            if ok is None:
+                got.add('?')
+            elif ok:
+                got.add(value(r.ret, val))
+        want = N and S and not W
+        if got != {want}:
+            bad = 'with info-unchanged=%s no-slots=%s wipe=%s it answers %s, expected %s' % (N, S, W, sorted(map(str, got)), want)
+            break
+    if bad:
+        rep.violation('R13-revert-is-empty', 'is_empty', 'AccountRevert::is_empty: ' + bad, f.where())
+    else:
+        rep.ok('R13-revert-is-empty', 'is_empty', 'DoNothing and no slots and no wipe (8 cells)')
 
 
 def check_revert_latest(fx, rep):
@@ -269,10 +333,13 @@ def check_storage_disposition(fx, rep, f):
                     if 'storage_was_destroyed' in render(sv):
                         flag = lit_truth(lit)
                 emptied = False
+                pruned = False
                 for e in r.events:
                     short = e[0].split('::')[-1]
                     if short in ('drain', 'take', 'clear') and e[1] and render(e[1][0]).replace(' ', '') == "&('arg',1).storage":
                         emptied = True
+                    if short in ('retain', 'remove', 'remove_entry', 'extract_if') and e[1] and render(e[1][0]).replace(' ', '') == "&('arg',1).storage":
+                        pruned = True
                 st = [v for (root, path), v in r.stores.items() if root == ('arg', 1) and path == ('.storage',)]
                 if st and render(st[-1]).startswith('arg2.storage'):
                     emptied = True          # replaced by the transition's own slots
@@ -289,7 +356,7 @@ def check_storage_disposition(fx, rep, f):
                         rep.ok('R7-storage-disposition', key, 'old slots emptied', nontrivial=False)
                 elif must_keep:
                     n += 1
-                    if emptied:
+                    if emptied or pruned:
                         rep.violation('R7-storage-disposition', key, 'merging %s into a %s account discards the slots recorded by earlier merges' % (new, old), f.where())
                     else:
                         rep.ok('R7-storage-disposition', key, 'old slots kept', nontrivial=False)
